@@ -261,9 +261,14 @@ class MapStreamSpec(SeqSpec):
     informational = {"sorted-buffer-matcher", "rejections-certified"}
 
     def gen_one(self, rng):
-        cfg = gen_params(rng)
-        n = cfg["n"]
-        kind, gated, order = latency_pattern(rng, n)
+        while True:
+            cfg = gen_params(rng)
+            n = cfg["n"]
+            kind, gated, order = latency_pattern(rng, n)
+            # free-running workers (few gates) over many items make the history matcher explore very many
+            # interleavings: keep those scenarios short
+            if not (len(gated) <= 1 and cfg["par"] >= 3 and n > 6):
+                break
         cfg["fgated"] = gated
         mode = rng.choice(["plain", "plain", "ferr", "ferr", "serr", "close", "close", "nextctx", "parent", "mix"])
         ferr = []
